@@ -96,9 +96,9 @@ CHECKS = {
         note=TB + "Depth is bounded at 300 as the property says 'moderate'.",
         design="5 C12"),
     "C13": dict(
-        technique="runtime monitoring: artefact-hash comparison within and across ASLR-free worker processes, panic capture at the API boundary in release and overflow-check builds, allocator-call growth ratios, repeated-execution log comparison",
-        text="Exploration. Totality (no panic/abort/overflow in create/translate/print_mc for nesting depth <= 300, both profiles), determinism (IR / bytecode / machine code equal between compilations in one process with other compilations in between and across 16 processes), reusability (six executions of one executor on fresh contexts in mixed modes) and a growth-ratio bound on allocator calls along seven parameterised families.",
-        note="'Super-polynomial blow-up' is restated as: allocator calls at most 32x + 20000 per doubling of the family parameter (n = 4..64). Machine code is compared without ASLR.",
+        technique="runtime monitoring: artefact-hash comparison within and across ASLR-free worker processes, panic capture at the API boundary in release and overflow-check builds, allocator-call and allocated-byte growth envelopes along parameterised program families (forked, address-space-limited, watchdogged), repeated-execution log comparison",
+        text="Exploration. Totality (no panic/abort/overflow in create/translate/print_mc for nesting depth <= 300, both profiles), determinism (IR / bytecode / machine code equal between compilations in one process with other compilations in between and across 16 processes), reusability (six executions of one executor on fresh contexts in mixed modes) and a growth envelope on allocator calls and allocated bytes along 17 parameterised families (nested multiply loops, squarings, rotations, copies, straight-line, sequential loops, nested ifs, and chains of products at top level and inside a loop).",
+        note="'Super-polynomial blow-up' is restated as: along each family (n = 4..64, programs < 3000 characters) calls and bytes grow by at most (n1/n0)^5 plus a fixed slack between consecutive sizes, and every compilation finishes within 60 s and 6 GiB of address space. Machine code is compared without ASLR.",
         design="5 C13"),
     "C16": dict(
         technique="runtime monitoring at the process boundary: random argv against a model configuration, stdout/exit status oracle (canonical interpreter), strace observation of PROT_EXEC / 512 MiB mappings, stdin file offset",
